@@ -30,10 +30,14 @@ const (
 	FSplat
 	FSPZ
 	FPTS
+	// FPlyForeign: PLY layouts as other tools write them (double/uchar/int
+	// properties, uint/int list counts, quads, extra header lines), from a
+	// reference encoder in the harness, in any of the three encodings.
+	FPlyForeign
 	FKinds
 )
 
-var formatNames = []string{"ply-ascii", "ply-le", "ply-be", "stl", "splat", "spz", "pts"}
+var formatNames = []string{"ply-ascii", "ply-le", "ply-be", "stl", "splat", "spz", "pts", "ply-foreign"}
 
 // file is one generated valid file.
 type file struct {
@@ -86,9 +90,158 @@ func genFile(c choice.Chooser) (*file, error) {
 		return genSplat(c)
 	case FSPZ:
 		return genSPZ(c)
+	case FPlyForeign:
+		return genPlyForeign(c)
 	default:
 		return genPTS(c)
 	}
+}
+
+// ------------------------------------------------------------ foreign PLY encoder
+
+type plyProp struct {
+	name string
+	typ  string // float double uchar int
+}
+
+func putScalar(buf *bytes.Buffer, ascii bool, order binary.ByteOrder, typ string, v float64) {
+	if ascii {
+		switch typ {
+		case "float", "double":
+			buf.WriteString(strconv.FormatFloat(v, 'g', -1, 64))
+		default:
+			buf.WriteString(strconv.Itoa(int(v)))
+		}
+		return
+	}
+	switch typ {
+	case "float":
+		var b [4]byte
+		order.PutUint32(b[:], math.Float32bits(float32(v)))
+		buf.Write(b[:])
+	case "double":
+		var b [8]byte
+		order.PutUint64(b[:], math.Float64bits(v))
+		buf.Write(b[:])
+	case "uchar":
+		buf.WriteByte(byte(int(v)))
+	case "int", "uint":
+		var b [4]byte
+		order.PutUint32(b[:], uint32(int32(v)))
+		buf.Write(b[:])
+	}
+}
+
+func genPlyForeign(c choice.Chooser) (*file, error) {
+	enc := c.Intn("fply:enc", 3) // 0 ascii 1 le 2 be
+	ascii := enc == 0
+	var order binary.ByteOrder = binary.LittleEndian
+	encName := []string{"ascii", "binary_little_endian", "binary_big_endian"}[enc]
+	if enc == 2 {
+		order = binary.BigEndian
+	}
+	posType := []string{"float", "double"}[c.Intn("fply:postype", 2)]
+	props := []plyProp{{"x", posType}, {"y", posType}, {"z", posType}}
+	if choice.Bool(c, "fply:normals") {
+		props = append(props, plyProp{"nx", "float"}, plyProp{"ny", "float"}, plyProp{"nz", "float"})
+	}
+	if choice.Bool(c, "fply:colors") {
+		props = append(props, plyProp{"red", "uchar"}, plyProp{"green", "uchar"}, plyProp{"blue", "uchar"})
+		if choice.Bool(c, "fply:alpha") {
+			props = append(props, plyProp{"alpha", "uchar"})
+		}
+	}
+	for i := c.Intn("fply:extras", 3); i > 0; i-- {
+		props = append(props, plyProp{fmt.Sprintf("q%d", i), []string{"float", "double", "int", "uchar"}[c.Intn("fply:extratype", 4)]})
+	}
+	nv := 1 + c.Intn("fply:verts", 8)
+	faces := choice.Bool(c, "fply:faces")
+	nf := 0
+	countType, indexType, listName := "uchar", "int", "vertex_indices"
+	uv := false
+	if faces {
+		nf = 1 + c.Intn("fply:nfaces", 5)
+		countType = []string{"uchar", "uint", "int"}[c.Intn("fply:counttype", 3)]
+		indexType = []string{"int", "uint"}[c.Intn("fply:indextype", 2)]
+		listName = []string{"vertex_indices", "vertex_index"}[c.Intn("fply:listname", 2)]
+		uv = c.Intn("fply:uv", 3) == 2
+	}
+	nl := "\n"
+	if ascii && c.Intn("fply:crlf", 4) == 3 {
+		nl = "\r\n"
+	}
+	var hdr bytes.Buffer
+	hdr.WriteString("ply" + nl + "format " + encName + " 1.0" + nl)
+	if choice.Bool(c, "fply:comment") {
+		hdr.WriteString("comment made by another tool" + nl)
+	}
+	if c.Intn("fply:objinfo", 3) == 2 {
+		hdr.WriteString("obj_info generated" + nl)
+	}
+	fmt.Fprintf(&hdr, "element vertex %d%s", nv, nl)
+	for _, p := range props {
+		fmt.Fprintf(&hdr, "property %s %s%s", p.typ, p.name, nl)
+	}
+	if faces {
+		fmt.Fprintf(&hdr, "element face %d%s", nf, nl)
+		fmt.Fprintf(&hdr, "property list %s %s %s%s", countType, indexType, listName, nl)
+		if uv {
+			fmt.Fprintf(&hdr, "property list uchar float texcoord%s", nl)
+		}
+	}
+	hdr.WriteString("end_header" + nl)
+	var body bytes.Buffer
+	for v := 0; v < nv; v++ {
+		for i, p := range props {
+			val := gen.Float(c, "fply:val")
+			if p.typ == "uchar" {
+				val = float64(c.Intn("fply:byte", 256))
+			} else if p.typ == "int" {
+				val = float64(c.Intn("fply:int", 2000) - 1000)
+			}
+			putScalar(&body, ascii, order, p.typ, val)
+			if ascii {
+				if i < len(props)-1 {
+					body.WriteByte(' ')
+				} else {
+					body.WriteString(nl)
+				}
+			}
+		}
+	}
+	vertexEnd := hdr.Len() + body.Len()
+	for f := 0; f < nf; f++ {
+		k := 3
+		if c.Intn("fply:quad", 4) == 3 {
+			k = 4
+		}
+		putScalar(&body, ascii, order, countType, float64(k))
+		for i := 0; i < k; i++ {
+			if ascii {
+				body.WriteByte(' ')
+			}
+			putScalar(&body, ascii, order, indexType, float64(c.Intn("fply:idx", nv)))
+		}
+		if uv {
+			if ascii {
+				body.WriteByte(' ')
+			}
+			putScalar(&body, ascii, order, "uchar", float64(2*k))
+			for i := 0; i < 2*k; i++ {
+				if ascii {
+					body.WriteByte(' ')
+				}
+				putScalar(&body, ascii, order, "float", float64(c.Intn("fply:uvval", 9))/8)
+			}
+		}
+		if ascii && (f < nf-1 || c.Intn("fply:nofinalnl", 4) != 3) {
+			body.WriteString(nl)
+		}
+	}
+	b := append(hdr.Bytes(), body.Bytes()...)
+	desc := fmt.Sprintf("ply-foreign %s pos=%s props=%d verts=%d faces=%d count=%s index=%s uv=%v", encName, posType, len(props), nv, nf, countType, indexType, uv)
+	return &file{Format: FPlyForeign, Desc: desc, Bytes: b, headerLen: hdr.Len(), ascii: ascii,
+		regions: []region{{"header", hdr.Len()}, {"vertex", vertexEnd}, {"face", len(b)}}}, nil
 }
 
 func plyFormat(f int) ply.Format {
